@@ -213,6 +213,52 @@ def run_row(rig, pup, db, b, op, p, sec, nb):
     return [row, out], pdu, [pp[:24].hex() for pp in rx]
 
 
+# ----------------------------------------------------------------------------- history: another, authorised peer first
+class HistRig(A.AttRig):
+    """Server (device 1) with TWO clients on two connections: device 0 sends the judged request at the row's link
+    security, device 2 is an authenticated peer that accesses the same attribute first.  What the server did for
+    the authorised peer must not change what the other peer is refused."""
+
+    async def _setup(self, seed, max_delay, build_db, eatt, server_patch):
+        from lib import rig as _rig
+
+        self.net = _rig.Net(3, seed=seed, max_delay=max_delay)
+        await self.net.power_on()
+        self.server_device = self.net[1]
+        self.server = self.server_device.gatt_server
+        self.db = build_db(self.server_device) if build_db else None
+        if server_patch:
+            server_patch(self.server)
+        self.cc, self.pc = await self.net.connect_le(0, 1)
+        self.cc2, self.pc2 = await self.net.connect_le(2, 1)
+        self.net[0].l2cap_channel_manager.register_fixed_channel(A.ATT_CID, self._on_fixed)
+        self.net[2].l2cap_channel_manager.register_fixed_channel(A.ATT_CID, lambda _h, _pdu: None)
+
+    def prime(self, pdu):
+        self.call(lambda: self.cc2.send_l2cap_pdu(A.ATT_CID, bytes(pdu)))
+        self.run()
+
+
+def prime_for(rig, db, op, p, nb):
+    """authorised accesses by the other peer that precede the judged request"""
+    H = A.H
+    _pdu, t = request_for(db, op, p, nb)
+    original = db.originals[id(t)]
+    if op in WRITE_OPS:
+        rig.prime(b"\x12" + H(t.handle) + NEW_VALUE)
+        rig.prime(b"\x16" + H(t.handle) + H(0) + NEW_VALUE)  # a prepared write left pending by the authorised peer
+        if t.value is not original:
+            t.value = original
+        del db.writes[:]
+        return
+    rig.prime(b"\x0a" + H(t.handle))
+    for off in (0, 7, 22, 44):
+        rig.prime(b"\x0c" + H(t.handle) + H(off))
+    rig.prime(b"\x08" + H(t.handle) + H(t.handle) + H(U_T))
+    rig.prime(b"\x0e" + H(t.handle) + H(t.handle))
+    rig.prime(b"\x10" + H(t.handle) + H(t.handle) + H(0x2800))
+
+
 # ----------------------------------------------------------------------------- jobs
 def rows_job(job):
     """All (op, p, nb) rows of the given ops at one security level on one rig.  Returns [(trace, meta)]."""
@@ -227,7 +273,12 @@ def rows_job(job):
         holder["db"] = build_db(device, flavour)
         return holder["db"]
 
-    rig = A.AttRig(seed=seed, build_db=builder, eatt=(bearer == "eatt"), server_patch=patch)
+    history = real == "history"
+    if history:
+        real = None
+        rig = HistRig(seed=seed, build_db=builder, server_patch=patch)
+    else:
+        rig = A.AttRig(seed=seed, build_db=builder, eatt=(bearer == "eatt"), server_patch=patch)
     out = []
     try:
         db = holder["db"]
@@ -248,12 +299,16 @@ def rows_job(job):
                 raise RuntimeError("authenticated but not encrypted: not one of the three modelled levels")
         else:
             set_security(rig.pc, sec)
+        if history:
+            set_security(rig.pc2, "authn")
         for op in ops:
             for p in perms:
                 for nb in NBS:
+                    if history:
+                        prime_for(rig, db, op, p, nb)
                     tr, pdu, rx = run_row(rig, pup, db, b, op, p, sec, nb)
                     out.append((tr, {"flavour": flavour, "bearer": bearer, "mtu": mtu, "sec": sec, "op": op, "p": p, "nb": nb, "seed": seed,
-                                     "real": real, "pdu": pdu.hex(), "rx": rx}))
+                                     "real": "history" if history else real, "pdu": pdu.hex(), "rx": rx}))
     finally:
         rig.close()
     return out
@@ -299,7 +354,7 @@ def judge(rep, tr, meta, v):
     if not clauses or clauses == ["guard"]:
         raise tlc.TlcError(f"harness produced a row/outcome the spec cannot even read (not a verdict): {v} {tr}")
     why = info.get("why", "?")
-    sig = f"perm:{meta['op']}:{why}:{'+'.join(clauses)}"
+    sig = f"perm:{meta['op']}:{why}:{'+'.join(clauses)}" + (":after-authorised-peer" if meta.get("real") == "history" else "")
     o = tr[1]
     rep.violation(
         sig,
@@ -327,6 +382,11 @@ def plan(ctx, patch=None, small=False):
     sample = [0x00, 0x01, 0x02, 0x03, 0x04, 0x05, 0x08, 0x0B, 0x10, 0x11, 0x13, 0x15, 0x20, 0x23, 0x2B, 0x40, 0x41, 0x80, 0x83, 0xFF]
     jobs.append(("raw", "fixed", 23, None, OPS, sample, seed, patch, "fresh"))
     jobs.append(("raw", "fixed", 23, None, OPS, sample, seed, patch, "paired"))
+    # the same rows after an authenticated peer on ANOTHER connection has accessed the same attribute (two clients)
+    hperms = sample if ctx.quick else sorted(set(sample) | set(range(0, 256, 3)))
+    for sec in ("plain", "enc"):
+        for ops in ([READ_OPS[:4], READ_OPS[4:] + WRITE_OPS] if ctx.quick else [[o] for o in OPS]):
+            jobs.append(("raw", "fixed", 23, sec, ops, hperms, seed, patch, "history"))
     if not ctx.quick:
         for flavour in ("char", "desc", "dyn", "dyn2"):
             for sec in SECS:
